@@ -12,6 +12,7 @@ from statham.schema.validation import (
     NoMatch,
     Validator,
 )
+from statham.schema.validation.base import replace_bool
 
 
 T = TypeVar("T")
@@ -216,7 +217,7 @@ class Element(Generic[T]):
         if not isinstance(other, self.__class__):
             return False
         pub_vars = lambda x: {
-            k: v
+            k: replace_bool(v)
             for k, v in vars(x).items()
             if not k.startswith("_") or k == "_properties"
         }
